@@ -127,7 +127,13 @@ def case_ladder(rec, c):
     errs = {'fwd': [], 'bwd': []}
     nl = c['levels']
     for n, L, dr in levels(nl, base):
+        # other Domains of the same length and a different spacing exist in the process: one constructed (and used)
+        # before this one, one constructed after it and alive while this one is used
+        before = build.make_domain({'length': L, 'dr': dr * 1.7})
+        before.to_fourier(np.ones(L))
         d = build.make_domain({'length': L, 'dr': dr})
+        after = build.make_domain({'length': L, 'dr': dr * 0.6})
+        after.to_real(np.ones(L))
         if not build.domain_ok(d):
             rec.count('skipped_preconditions')
             return
